@@ -293,7 +293,7 @@ func cmdMutate(args []string) {
 		os.Exit(2)
 	}
 	var funcs []string
-	for _, f := range props[*prop].Functions {
+	for _, f := range fnBases(props[*prop].Functions) {
 		if strings.Contains(f, "verif") {
 			continue // harnesses are not library code
 		}
